@@ -28,7 +28,7 @@ NEEDS = {
     "C13_TvdFinite": ["tvdnamed"], "C13_TvdInterior": ["tvdnamed"], "C13_TvdFormula": ["tvdnamed"],
     "C06_TvdConst": ["tvdconst"], "C01_ClosedTvd": ["tvdnamed", "volume"], "C01_ClosedTvdMid": ["tvdnamed"],
     "C11_Linear": ["linmean"], "C11_Arithmetic": ["arithmean"], "C11_Harmonic": ["harmmean"],
-    "C11_Upwind": ["upmean"], "C11_Geometric": ["geomean"],
+    "C11_Upwind": ["upmean"], "C11_UpwindRepeat": ["upmean"], "C11_Geometric": ["geomean"],
     "C11_Between": ["linmean", "arithmean", "harmmean", "geomean", "upmean"],
     "C11_Ordering": ["harmmean", "geomean", "arithmean"], "C11_Constants": ["constmeans"],
     "C11_LinearExact": ["linmean_linear"],
@@ -40,7 +40,7 @@ CONFORMABLE = {"tvd1", "Mdiff", "Mconv", "Mup", "Mupalt", "ghost", "Mbc", "Rbc",
 
 
 SOLVE_CLAUSES = {"C04_Solves", "C04_SameObject", "C04_SameAsMatrixPDE", "C04_ExternalSolver", "C04_Variants",
-                 "C04_Linear", "C04_Assembly", "C12_Residual", "C12_FixedPoint", "C12_ExplicitStep",
+                 "C04_Linear", "C04_Assembly", "C12_Residual", "C12_History", "C12_FixedPoint", "C12_ExplicitStep",
                  "C12_ExplicitBCs", "C12_InputUntouched", "C12_ExplicitUsable", "C03_SolvedRobin"}
 for _c in SOLVE_CLAUSES:
     NEEDS[_c] = []
